@@ -834,36 +834,60 @@ def coded_bool_field(prog, getter):
     """A bool option kept as a private field-less two-variant enum: if `getter` returns a bool decided by nothing but the discriminant of one
     field F of self, and the one assignment of F in a `fn(&mut self, bool)` setter stores the variant the getter maps back to the argument
     (getter ∘ setter = identity), returns (F, index of the variant meaning true); else None."""
-    from engine.analyses import bool_function, guards_of, direct_writes
+    from engine.analyses import guards_of, direct_writes, sym_paths as _sp
     b = prog.body(getter)
-    bf = bool_function(b)
-    if not bf or len(bf) != 2:
+    try:
+        gpaths = _sp(b, 0, 64)
+    except Exception:
         return None
     F = None
-    k_true = None
-    for conds, ret in bf:
+    vmap = {}           # variant index → the bool the getter returns for it
+    for path, env, conds in gpaths:
+        ret = env.get(0)
         ret = strip_refs(ret) if ret is not None else None
-        if len(conds) != 1 or ret is None or not is_const(ret, "bool"):
+        if ret is None or not is_const(ret, "bool"):
             return None
-        d, pol = conds[0]
-        d = strip_refs(d)
-        if d.k != "bin" or d.a[0] != "Eq":
+        taken = None     # set of variant indices this path stands for
+        for (d, vals, allv, ty, sbb) in conds:
+            d = strip_refs(d)
+            neg = False
+            while d.k == "un" and d.a[0] == "Not":
+                d = strip_refs(d.a[1])
+                neg = not neg
+            if d.k == "discr" and self_path(d.a[0]) and len(self_path(d.a[0])) == 1:
+                f = self_path(d.a[0])[0]
+                ks = set(vals) if vals != "otherwise" else ({0, 1} - set(allv))
+            elif d.k == "bin" and d.a[0] in ("Eq", "Ne"):
+                sides = [strip_refs(d.a[1]), strip_refs(d.a[2])]
+                fld = [x for x in sides if x.k == "discr" and self_path(x.a[0]) and len(self_path(x.a[0])) == 1]
+                oth = [x for x in sides if x not in fld]
+                if len(fld) != 1 or len(oth) != 1:
+                    return None
+                f = self_path(fld[0].a[0])[0]
+                k = _variant_index(prog, oth[0])
+                if k is None:
+                    return None
+                truth = (vals != (0,)) if vals != "otherwise" else (0 in allv)
+                if neg:
+                    truth = not truth
+                if d.a[0] == "Ne":
+                    truth = not truth
+                ks = {k} if truth else ({0, 1} - {k})
+            else:
+                return None
+            if F is not None and F != f:
+                return None
+            F = f
+            taken = ks if taken is None else (taken & ks)
+        if taken is None:
             return None
-        sides = [strip_refs(d.a[1]), strip_refs(d.a[2])]
-        fld = [x for x in sides if x.k == "discr" and self_path(x.a[0]) and len(self_path(x.a[0])) == 1]
-        oth = [x for x in sides if x not in fld]
-        if len(fld) != 1 or len(oth) != 1:
-            return None
-        f = self_path(fld[0].a[0])[0]
-        k = _variant_index(prog, oth[0])
-        if k is None or (F is not None and F != f):
-            return None
-        F = f
-        means_true = (pol is True) == bool(const_val(ret))          # Eq k holds ⇒ ret, or Eq k fails ⇒ ret
-        kt = k if means_true else 1 - k
-        if k_true is not None and k_true != kt:
-            return None
-        k_true = kt
+        for k in taken:
+            if k in vmap and vmap[k] != bool(const_val(ret)):
+                return None
+            vmap[k] = bool(const_val(ret))
+    if F is None or set(vmap) != {0, 1} or vmap[0] == vmap[1]:
+        return None
+    k_true = 0 if vmap[0] else 1
     owner = (prog.fns[getter].get("impl") or {}).get("self")
     fty = {x["name"]: x["ty"] for x in prog.struct_fields(owner)}.get(F)
     adt = prog.adts.get(fty or "")
